@@ -1312,7 +1312,7 @@ func main() {
 	// corpus first: hand-written witnesses (corpus/C06/*.json) with a table of expected Extra / Exts
 	var corpusN, corpusClean int64
 	if want("corpus") {
-		paths, _ := filepath.Glob("/verif/corpus/C06/*.json")
+		paths, _ := filepath.Glob(lib.Root() + "/corpus/C06/*.json")
 		sort.Strings(paths)
 		var cases []rescorr.Case
 		for _, p := range paths {
